@@ -377,6 +377,10 @@ func (c *C) Rcpt(ctx context.Context, to string, opts smtp.RcptOptions) error {
 	}
 
 	// If necessary, the extension flag is enabled in Start.
+	// Rcpts() should return addresses as they were passed to Rcpt, even if
+	// they are converted for the server.
+	originalTo := to
+
 	if ok, _ := c.cl.Extension("SMTPUTF8"); !address.IsASCII(to) && !ok {
 		var err error
 		to, err = address.ToASCII(to)
@@ -397,7 +401,7 @@ func (c *C) Rcpt(ctx context.Context, to string, opts smtp.RcptOptions) error {
 		return c.wrapClientErr(err, c.serverName)
 	}
 
-	c.rcpts = append(c.rcpts, to)
+	c.rcpts = append(c.rcpts, originalTo)
 
 	return nil
 }
